@@ -104,13 +104,19 @@ pub fn run(stdout: &mut StandardStream, hy_opt: &HyeongOption) -> Result<(), Err
                 err.flush().unwrap();
                 is_running = false;
             } else {
-                state_stack.push(execute::execute_one(
+                let next = execute::execute_one(
                     &mut stdin(),
                     &mut out,
                     &mut err,
                     state_stack.last().unwrap().0.clone(),
                     state_stack.last().unwrap().1,
-                )?);
+                );
+                if next.is_err() {
+                    // show what the program wrote before the failing command
+                    out.flush().unwrap();
+                    err.flush().unwrap();
+                }
+                state_stack.push(next?);
             }
         } else {
             loop {
@@ -141,13 +147,18 @@ pub fn run(stdout: &mut StandardStream, hy_opt: &HyeongOption) -> Result<(), Err
                             true,
                         )?;
 
-                        state_stack.push(execute::execute_one(
+                        let next = execute::execute_one(
                             &mut stdin(),
                             &mut out,
                             &mut err,
                             state_stack.last().unwrap().0.clone(),
                             state_stack.last().unwrap().1,
-                        )?);
+                        );
+                        if next.is_err() {
+                            out.flush().unwrap();
+                            err.flush().unwrap();
+                        }
+                        state_stack.push(next?);
 
                         out.flush().unwrap();
                         err.flush().unwrap();
@@ -165,13 +176,18 @@ pub fn run(stdout: &mut StandardStream, hy_opt: &HyeongOption) -> Result<(), Err
                     }
 
                     "run" | "r" => {
-                        state_stack.push(execute::execute_one(
+                        let next = execute::execute_one(
                             &mut stdin(),
                             &mut out,
                             &mut err,
                             state_stack.last().unwrap().0.clone(),
                             state_stack.last().unwrap().1,
-                        )?);
+                        );
+                        if next.is_err() {
+                            out.flush().unwrap();
+                            err.flush().unwrap();
+                        }
+                        state_stack.push(next?);
 
                         is_running = true;
                         break;
